@@ -341,7 +341,7 @@ def rule_closegate(ctx):
         for name in sorted(closes):
             for d in defs.get(name, []):
                 t, flags = table(d, name)
-                key = 'Profile.%s:%s:close-gate' % (name, cfg_text)
+                key = 'Profile.%s:%s:close-gate' % (name, ''.join(cfg_text.split()))       # construct keys carry no blanks (known_findings.txt format)
                 if all(v is None for v in t.values()):
                     raise AnalysisError('%s (`%s`): the configuration delivers start events but no delivering call was found in this closing macro' % (name, cfg_text))
                 kind = macro_kind[name]
